@@ -381,7 +381,10 @@ class DigestCredentialFactory:
         auth = {}
         for key, bare, quoted in parts:
             value = (quoted or bare).strip()
-            auth[nativeString(key.strip())] = value
+            try:
+                auth[nativeString(key.strip())] = value
+            except UnicodeError:
+                raise error.LoginFailed("Invalid response, non-ASCII parameter name.")
 
         username = auth.get("username")
         if not username:
